@@ -37,6 +37,20 @@ def huge_trivia(ctx):
             ("blanks", 'def e { splitters: u return "a"' + " " * n + 'weighted 1 }'),
             ("line-breaks", 'def e { splitters: u' + "\n" * n + 'return "a" weighted 1 }'),
         ]
+        if n in (65536, 70000, 131072, 250000):
+            # MANY pieces of trivia (thousands of comment lines / of lines inside one block comment) right after a token that carries a value
+            lines = {65536: 2100, 70000: 4100, 131072: 5000, 250000: 9000}[n]
+            many = rng.choice(["// c%d\n", "//\n", "// x\n\n"])
+            run = "".join((many % i) if "%d" in many else many for i in range(lines))
+            block = "/*" + "".join("l%d\n" % i for i in range(lines)) + "*/"
+            variants += [
+                ("many-comment-lines-after-identifier", 'def e { splitters: u\n' + run + ' return "a" weighted 1 }'),
+                ("many-comment-lines-after-string", 'def e { splitters: u return "a"\n' + run + ' weighted 1 }'),
+                ("many-comment-lines-after-number", 'def e { splitters: u return "a" weighted 1\n' + run + ' }'),
+                ("many-block-lines-after-identifier", 'def e { splitters: u ' + block + ' return "a" weighted 1 }'),
+                ("many-block-lines-after-string", 'def e { splitters: u return "a" ' + block + ' weighted 1 }'),
+                ("many-comment-lines-after-name", 'def e\n' + run + '{ splitters: u return "a" weighted 1 }'),
+            ]
         for kind, text in variants:
             try:
                 a = common.canon_ast(common.quiet(lambda: parse_source(text))[0])
